@@ -58,25 +58,25 @@ type ActorSpec struct {
 
 // SvcCase is a generated test case for the service scenarios.
 type SvcCase struct {
-	SvcName    string       `json:"svc_name"`
-	Workers    int          `json:"workers"`
-	InCh       int          `json:"in_ch"`
-	QueryMs    int          `json:"query_ms"`
-	Pats       []PatSpec    `json:"pats"`
-	Actors     []ActorSpec  `json:"actors"`
-	Epochs     int          `json:"epochs"`
-	MidStop    []int        `json:"mid_stop"` // per epoch: <0 clean shutdown at quiescence, else earliest step for Shutdown
-	Optional   []string     `json:"optional"` // enabled optional yield points; ["*"] = all
-	Gate       bool         `json:"gate"`     // hold actors until the service announced itself
+	SvcName  string      `json:"svc_name"`
+	Workers  int         `json:"workers"`
+	InCh     int         `json:"in_ch"`
+	QueryMs  int         `json:"query_ms"`
+	Pats     []PatSpec   `json:"pats"`
+	Actors   []ActorSpec `json:"actors"`
+	Epochs   int         `json:"epochs"`
+	MidStop  []int       `json:"mid_stop"` // per epoch: <0 clean shutdown at quiescence, else earliest step for Shutdown
+	Optional []string    `json:"optional"` // enabled optional yield points; ["*"] = all
+	Gate     bool        `json:"gate"`     // hold actors until the service announced itself
 	// OverlapServe: a stopped service is served again by another goroutine
 	// as soon as Shutdown returned, whether or not the previous Serve call
 	// has returned yet
-	OverlapServe bool `json:"overlap_serve,omitempty"`
-	LosePct    int          `json:"lose_pct,omitempty"`
-	PubFailPct int          `json:"pubfail_pct,omitempty"`
-	SubFailAt  int          `json:"subfail_at,omitempty"` // n-th subscribe fails (1-based), 0 = never
-	Owned      *[2][]string `json:"owned,omitempty"`
-	QueueGroup *string      `json:"queue_group,omitempty"`
+	OverlapServe bool         `json:"overlap_serve,omitempty"`
+	LosePct      int          `json:"lose_pct,omitempty"`
+	PubFailPct   int          `json:"pubfail_pct,omitempty"`
+	SubFailAt    int          `json:"subfail_at,omitempty"` // n-th subscribe fails (1-based), 0 = never
+	Owned        *[2][]string `json:"owned,omitempty"`
+	QueueGroup   *string      `json:"queue_group,omitempty"`
 }
 
 // Submission is the oracle's view of one op.
@@ -151,8 +151,8 @@ type Engine struct {
 	Epochs    []*EpochInfo
 	// serveTasks[i] calls Serve for epoch i
 	serveTasks []*sched.Task
-	cur       atomic.Int32 // current epoch index
-	Conn      *simconn.Conn
+	cur        atomic.Int32 // current epoch index
+	Conn       *simconn.Conn
 
 	actorsDone atomic.Int32
 	nActors    int
@@ -921,6 +921,10 @@ func (e *Engine) doOp(a *ActorSpec, op *Op) {
 		e.Svc.Reset([]string{"test.x." + strconv.Itoa(op.ID)}, []string{"test.y"})
 		e.Sim.Yield("call.return", "reset")
 		s.Return = e.H.Rec("call.return", "", op.ID, "reset")
+	case "reconnect":
+		s.Invoke = e.H.Rec("call.invoke", "", op.ID, "reconnect")
+		e.Conn.Reconnected()
+		s.Return = e.H.Rec("call.return", "", op.ID, "reconnect")
 	case "resetall":
 		s.Invoke = e.H.Rec("call.invoke", "", op.ID, "resetall")
 		e.Svc.ResetAll()
